@@ -863,6 +863,10 @@ var _ = io.EOF
 var _ = os.ErrDeadlineExceeded
 
 func genC15(r *vh.Runner) {
+	nq := r.Pick(12, 300)
+	for i := 0; i < nq; i++ {
+		r.Case(fmt.Sprintf("queued-writes/%d", i), map[string]any{"rep": i}, func(c *vh.Case) { queuedWritesRun(r, c, i) })
+	}
 	n := r.Pick(120, 30000)
 	for i := 0; i < n; i++ {
 		r.Case(fmt.Sprintf("roam/%d", i), map[string]any{"history": i}, func(c *vh.Case) {
@@ -972,6 +976,26 @@ func roamRun(r *vh.Runner, c *vh.Case, i int) {
 		} else {
 			expected = src
 		}
+	}
+	// in some histories the follower keeps sending on its own while all this
+	// happens (sends in flight during address updates; the race build watches)
+	if rng.Chance(0.4) {
+		stopBG := make(chan struct{})
+		bgDone := make(chan struct{})
+		go func() {
+			defer close(bgDone)
+			for q := uint32(0); ; q++ {
+				select {
+				case <-stopBG:
+					return
+				default:
+				}
+				follower.WriteMsg(build(r.Seed, msgID{0, 7, 7, q}, hdrLen+int(q%50)))
+				time.Sleep(700 * time.Microsecond)
+			}
+		}()
+		defer func() { close(stopBG); <-bgDone }()
+		r.Count("histories_with_background_sender", 1)
 	}
 	steps := 12 + rng.Intn(25)
 	genuine("plain")
@@ -1092,5 +1116,76 @@ func roamRun(r *vh.Runner, c *vh.Case, i int) {
 	r.Nontrivial(fmt.Sprintf("roam|%d|%s|%v", i, role, history))
 	if i < 2 {
 		r.Sample(map[string]any{"kind": "roaming-history", "role": role, "steps": history})
+	}
+}
+
+// queuedWritesRun (real time; a goroutine queueing on the handle's write lock
+// would stop a bubble's clock): the server's socket holds one write; two more
+// writes queue behind it; the client roams and the server is seen to have
+// recorded the new address; only then is the held write released. What the
+// server seals after the address update - the two queued writes - must go to
+// the new address.
+func queuedWritesRun(r *vh.Runner, c *vh.Case, i int) {
+	rng := vh.NewRand(r.Seed, "c15-queued", i)
+	w, sessions, ok := setup(r, c, rng, 1)
+	if !ok {
+		teardown(w, sessions)
+		return
+	}
+	defer teardown(w, sessions)
+	s := sessions[0]
+	release := make(chan struct{})
+	entered := w.SrvEP.HoldNextWrite(release)
+	sizes := []int{hdrLen + 101, hdrLen + 202, hdrLen + 303}
+	mark := w.Net.LogLen()
+	var wg sync.WaitGroup
+	write := func(qi int) {
+		defer wg.Done()
+		s.h.WriteMsg(build(r.Seed, msgID{0, 9, 9, uint32(900000 + qi)}, sizes[qi]))
+	}
+	wg.Add(1)
+	go write(0)
+	select {
+	case <-entered:
+	case <-time.After(5 * time.Second):
+		close(release)
+		c.Inconclusive("the first write never reached the socket")
+		return
+	}
+	wg.Add(2)
+	go write(1)
+	go write(2)
+	time.Sleep(time.Duration(5+rng.Intn(30)) * time.Millisecond) // let them queue on the write lock
+	na := simnet.Addr(52000+rng.Intn(500), 3000+rng.Intn(50000))
+	s.ep.SetSource(na)
+	s.cl.WriteMsg(build(r.Seed, msgID{0, 8, 8, 1}, hdrLen+8)) // genuine, from the new address
+	updated := false
+	for k := 0; k < 400 && !updated; k++ {
+		if ra := s.h.VerifSession().Remote; ra != nil && ra.String() == na.String() {
+			updated = true
+		} else {
+			time.Sleep(5 * time.Millisecond)
+		}
+	}
+	close(release)
+	wg.Wait()
+	time.Sleep(20 * time.Millisecond)
+	r.Count("evaluations", 1)
+	if !updated {
+		c.Inconclusive("the server did not record the new address within 2 s")
+		return
+	}
+	r.Count("roams_with_writes_queued", 1)
+	r.Nontrivial(fmt.Sprintf("queued-writes|%d", i))
+	for _, ev := range w.Net.LogSince(mark) {
+		if ev.Kind != "tx" || ev.Src != w.SrvAddr.String() {
+			continue
+		}
+		for qi, sz := range sizes[1:] {
+			if ev.Len == 16+sz+32 && ev.Dst != na.String() { // 16 header + plaintext + 32 tag
+				c.Violate("C15:queued-write-sent-to-the-old-address-after-roaming:server-follows-client", map[string]any{"queued_write": qi + 2, "sent_to": ev.Dst, "new_address": na.String()})
+				return
+			}
+		}
 	}
 }
